@@ -390,7 +390,7 @@ func runC10Channels(r *core.Run) {
 			c.AutoID, c.Attr = m&8 != 0, m&8 != 0
 			chs := []int{2, 3, 4, 5, 6, 7}
 			if ext == "core" {
-				chs = []int{1, 2, 3, 4, 5, 6, 7}
+				chs = []int{1, 2, 3, 4, 5, 6, 7, 8}
 			}
 			vs = append(vs, variant{c, chs})
 		}
@@ -404,7 +404,7 @@ func runC10Channels(r *core.Run) {
 		docs = append(docs, []byte(e.Markdown))
 	}
 	s := r.Sub("option-channels", fmt.Sprintf("%d option combinations ({core, all} × subsets of {Unsafe, XHTML, HardWraps} × {–, AutoHeadingID+Attribute}) × alternative registration channels %q × %d documents (block words, nesting documents, spec examples and the repository's test-case sources): bytes equal to the standard channel (goldmark.WithRendererOptions / WithParserOptions)", len(vs), core.Channels[1:], len(docs)))
-	s.Bound = fmt.Sprintf("%d configurations × ≤7 channels × %d documents", len(vs), len(docs))
+	s.Bound = fmt.Sprintf("%d configurations × ≤8 channels × %d documents", len(vs), len(docs))
 	complete := core.ForEachIndex(len(vs), core.Workers(), func(w int) func(int) {
 		var ref []byte
 		return func(i int) {
